@@ -157,7 +157,7 @@ def main(tier, replay=None):
         "specification contributes the outcome typing, the exact acceptance verdict for declaration-level mutants "
         "and the termination bound of the Compiler machine",
     ]
-    nprog, nmut, ntext, nsoup = (80, 8, 12, 400) if tier == "quick" else (1500, 12, 30, 20000)
+    nprog, nmut, ntext, nsoup = (80, 8, 12, 400) if tier == "quick" else (700, 10, 16, 10000)     # about 50 minutes on 16 cores (single-threaded parses)
     traces, metas = [], []
     with common.Scratch("c09") as scratch:
         # (a) declaration-level mutants: the Compiler machine knows the exact verdict
